@@ -2,9 +2,14 @@ package props
 
 import (
 	"fmt"
+	"sort"
+	"strings"
 	"sync"
 
+	oerrors "github.com/orda-io/orda/client/pkg/errors"
+	"github.com/orda-io/orda/client/pkg/iface"
 	"github.com/orda-io/orda/client/pkg/model"
+	"github.com/orda-io/orda/client/pkg/orda"
 	"vh/bed"
 	"vh/core"
 	"vh/crdt"
@@ -552,6 +557,63 @@ func runC13(c *core.Case) *core.Result {
 			return c.Violation("race-outcome", "%d racing %s requests (exists=%v sameType=%v): %d succeeded, a serial order gives %d", n, mode, exists, sameType, okCount, wantOK)
 		}
 		c.Count("racing_entries", int64(n))
+	}
+	// the same key opened AGAIN on a client that holds it: with the same type the client gets
+	// the instance it has (no second entry), with another type the open is refused through the
+	// given error handler, and neither changes what the client or the server hold
+	for _, e := range entries {
+		if e.d == nil || e.d.DT.GetState() != model.StateOfDatatype_SUBSCRIBED {
+			continue
+		}
+		var hmu sync.Mutex
+		nerr := 0
+		h2 := orda.NewHandlers(nil, nil, func(dt orda.Datatype, errs ...oerrors.OrdaError) {
+			hmu.Lock()
+			nerr += len(errs)
+			hmu.Unlock()
+		})
+		viewBefore := e.d.View()
+		dtDocs := func() string {
+			var l []string
+			for _, dd := range w.b.Datatypes() {
+				l = append(l, fmt.Sprintf("%s/%s/%s/%d", dd.DUID, dd.Key, dd.Type, dd.CollectionNum))
+			}
+			sort.Strings(l)
+			return strings.Join(l, " ")
+		}
+		before := dtDocs()
+		var again, other orda.Datatype
+		ot := otherType(typ, r)
+		if pm := safely(func() {
+			again = bed.OpenRaw(e.cl.Cli, key, typ, mode, h2)
+			other = bed.OpenRaw(e.cl.Cli, key, ot, c13Modes[r.Intn(3)], h2)
+		}); pm != "" {
+			return c.Violation("client-panic", "opening key %q a second time on the same client panicked: %s", key, pm)
+		}
+		c.Step("%s opens key %s again (same type, then as %s)", e.cl.Alias, key, ot)
+		if bed.IsNilDatatype(again) {
+			return c.Violation("second-open-same-type", "opening a %s that the client already holds returned nothing", typ)
+		}
+		if aw, ok := again.(iface.Datatype); !ok || aw.GetDUID() != e.d.W.GetDUID() {
+			return c.Violation("second-open-same-type", "opening a %s that the client already holds returned another instance", typ)
+		}
+		hmu.Lock()
+		n := nerr
+		hmu.Unlock()
+		if !bed.IsNilDatatype(other) || n == 0 {
+			return c.Violation("second-open-other-type", "the client holds key %q as %s; opening it as %s returned a datatype: %v, errors delivered to the given handler: %d", key, typ, ot, !bed.IsNilDatatype(other), n)
+		}
+		if res := mustSync(e.cl); res != nil {
+			return res
+		}
+		if v := e.d.View(); v != viewBefore {
+			return c.Violation("second-open-changed-state", "opening key %q again changed what the client reads: %s -> %s", key, clip(viewBefore, 300), clip(v, 300))
+		}
+		if after := dtDocs(); after != before {
+			return c.Violation("second-open-changed-store", "opening key %q again on a subscribed client and syncing changed the stored datatypes: %s -> %s", key, before, after)
+		}
+		c.Count("second_opens_checked", 1)
+		break
 	}
 	// exactly one datatype document per (collection, key)
 	nDocs := 0
